@@ -4,6 +4,6 @@ CLAIM = dict(
     level='exploration',
     design_ref='DESIGN.md section 7 C11',
     technique='TLA+ definitional spec (UnixStr.tla) enumerated by TLC as input/expected-output oracle; guard-page placement for out-of-argument reads; random long operands judged by TLC',
-    text="All pairs of strings up to length 3 (quick) / 4 (thorough) over {a,b,'/','.'} are enumerated by TLC together with the set of admissible answers of find, find_buf, match_up_to(_str), ends_with, path_join(_fmt), parent_path, path_file_name; the real operations are run on each with operands ending at a PROT_NONE page (a read outside an argument faults). Random long operands are judged by TLC against the same operators.",
+    text="All pairs of strings up to length 3 (quick) / 4 (thorough) over {a,b,'/','.'} are enumerated by TLC together with the set of admissible answers of find, find_buf, match_up_to(_str), ends_with, path_join(_fmt), parent_path, path_file_name; the real operations are run on each with operands ending at a PROT_NONE page (a read outside an argument faults). Random long operands, multi-byte and non-UTF-8 operands (also as paths), byte needles with NUL, every operand length around small-buffer sizes (0..600), and the formatted variants with the text handed over in pieces cut at every boundary are judged by TLC against the same operators; an operation that does not return (CPU-time watchdog) or faults is a violation.",
     note='Trusted: TLC and UnixStr.tla. Where the API text leaves an answer open (trailing separator, no separator) all documented readings are admitted. Longer strings are sampled, not enumerated.',
 )
